@@ -32,7 +32,7 @@ import (
 
 func init() {
 	register(&Prop{ID: "C09", Run: runC09, MinNontrivial: 200, RaceSecondPass: true,
-		Rule:        "each case = one input string presented to all six inbound entry points (plus direct DecryptBytes/Decrypt/DecryptSymmetricKey calls in the cipher classes) under one of 16 SP configurations (incl. certificate/key stores that return errors or nil entries, an ECDSA key given as encryption key) (empty store, no keys, nil clock, skip on/off, encryption-cert validation with empty/junk cert, decompression limits MaxInt64 / negative / MinInt64 / 1); classes: end-to-end ciphertext matrix (valid wrapped key, data ciphertext of every length 0-80, every final padding byte, all-zero plaintext, wrong key sizes, unknown algorithms, EncryptedKey ciphertext lengths 0-300), truncations/bit-flips/splices/base64+DEFLATE damage of generated and captured messages, hostile shapes (deep/wide trees, many Signatures, malformed Signature parts, DOCTYPE); oracle: no panic, process survives, exactly one of result/error; non-trivial = input that base64-decodes (reaches inflate/XML/crypto logic); a second pass repeats a subset under the race detector (checkptr); SP certificate bytes in non-DER forms (PEM, PEM without CERTIFICATE block, key file, cut-off file, BOM) through both key APIs; thirteen forms of advertised EncryptedKey certificate (EC, Ed25519, same key, cut, folded, PEM text, DER garbage); RetrievalMethod URI variants; class repeated-rejection (80 calls of the same rejected encrypted message, parked-goroutine detection)",
+		Rule:        "each case = one input string presented to all six inbound entry points (plus direct DecryptBytes/Decrypt/DecryptSymmetricKey calls in the cipher classes) under one of 16 SP configurations (incl. certificate/key stores that return errors or nil entries, an ECDSA key given as encryption key) (empty store, no keys, nil clock, skip on/off, encryption-cert validation with empty/junk cert, decompression limits MaxInt64 / negative / MinInt64 / 1); classes: end-to-end ciphertext matrix (valid wrapped key, data ciphertext of every length 0-80, every final padding byte, all-zero plaintext, wrong key sizes, unknown algorithms, EncryptedKey ciphertext lengths 0-300), truncations/bit-flips/splices/base64+DEFLATE damage of generated and captured messages, hostile shapes (deep/wide trees, many Signatures, malformed Signature parts, DOCTYPE); oracle: no panic, process survives, exactly one of result/error; non-trivial = input that base64-decodes (reaches inflate/XML/crypto logic); a second pass repeats a subset under the race detector (checkptr); SP certificate bytes in non-DER forms (PEM, PEM without CERTIFICATE block, key file, cut-off file, BOM) through both key APIs; thirteen forms of advertised EncryptedKey certificate (EC, Ed25519, same key, cut, folded, PEM text, DER garbage); RetrievalMethod URI variants; class repeated-rejection (80 calls of the same rejected encrypted message, parked-goroutine detection); encoding-mark shapes (UTF-16/32/7/1 marks with odd and empty tails)",
 		Assumptions: []string{"a watchdog firing is inconclusive, not a violation (the round-trip screen is super-linear on deep trees)", "DecryptBytes may return (nil, nil) for an empty plaintext; slice nil-ness is not tested"}})
 }
 
